@@ -198,9 +198,10 @@ func checkC05(p *load.Program, r *kit.Report) {
 			// the list ranged over by the request loop
 			var listV ssa.Value
 			if s, _, ok := elemIndex(kit.Strip(add.Call.Args[2])); ok {
-				listV = s
+				listV = kit.Strip(s)
 			}
 			for _, e := range ph.Edges {
+				e = kit.Strip(e)
 				if b, ok := e.(*ssa.BinOp); ok && b.Op == token.ADD && b.X == ssa.Value(ph) {
 					if k, ok := kit.ConstInt(b.Y); ok && k == 1 {
 						okStep = true
